@@ -28,7 +28,7 @@ def _extract(wd):
 def groups(tier):
     return [Group("sysex_contract", "harness/sysex_h.c", "h_realTime_SysEx", enforce="realTime_SysEx",
                   replace=["realTime_ResetState", "noteUpdateAll"], extract=_extract,
-                  unwindset="spec_bytes_named.0:65,spec_MIDIchannel_eq.0:129,spec_sysex_strict.0:65,doRolandSysEx.0:64,doUniversalSysEx.0:66",
+                  unwindset="spec_bytes_named.0:65,spec_MIDIchannel_eq.0:129,spec_table_same_except_drum_flag_of.0:17,spec_sysex_strict.0:65,doRolandSysEx.0:64,doUniversalSysEx.0:66",
                   required=[r"postcondition", r"assigns"], timeout=600,
                   funcs=["OPNMIDIplay::realTime_SysEx", "OPNMIDIplay::doUniversalSysEx", "OPNMIDIplay::doRolandSysEx", "OPNMIDIplay::doYamahaSysEx"],
                   note="checksum loop unwound to the 64-byte domain of the property (complete for that domain)")]
